@@ -956,6 +956,18 @@ class GCodeBuilder(GCodeCore):
         self.state._user_bounds.validate("axes", target_axes)
         return move, target_axes
 
+    def _validate_target(self, target_axes: Point) -> None:
+        """Ensure the absolute target position is within the user bounds.
+
+        Args:
+            target_axes: Absolute target position of the move
+
+        Raises:
+            ValueError: If the target position is out of bounds
+        """
+
+        self.state._user_bounds.validate("axes", target_axes)
+
     def _prepare_move(self,
         point: Point, params: ParamsDict,
         comment: str | None = None) -> Tuple[str, ParamsDict]:
